@@ -1,6 +1,7 @@
 """C28: (a) Kraus matrices of every built-in channel extracted symbolically (p = sin^2(theta/2) ...) -> completeness
 obligations; numeric completeness on grids incl. endpoints; (b) default.mixed on random noisy circuits vs an
-independent numpy Kraus-sum simulation + physicality of the result."""
+independent numpy Kraus-sum simulation + physicality of the result; a fixed corpus (run first) applies every operator with a
+dedicated kernel in devices/qubit_mixed/apply_operation.py to entangled complex superpositions (pure/mixed, batched, permuted wires)."""
 import sys, json, random, math, itertools
 sys.path.insert(0, "/verif/harness")
 from qrules import *
@@ -107,6 +108,14 @@ for p in GRID:
         num.append({"channel": "GeneralizedAmplitudeDamping", "params": [p, q], "err": complete(qp.GeneralizedAmplitudeDamping(p, q, wires=0))})
         if p + q <= 1:
             num.append({"channel": "ResetError", "params": [p, q], "err": complete(qp.ResetError(p, q, wires=0))})
+# fixed ThermalRelaxationError points (both branches T2 <= T1 / T2 > T1, pe at and away from 0.5, gate time 0 .. several T1)
+for pe in (0.0, 0.2, 0.5, 1.0):
+    for t1, t2, tg in ((2.0, 1.0, 0.5), (0.7, 0.175, 3.0), (1.0, 1.0, 1.0), (1.2, 1.3, 0.1), (1.0, 2.0, 0.7), (1.0, 1.5, 0.0), (2.0, 0.2, 0.0), (1e-5, 4e-6, 2e-5), (5e-5, 9e-5, 1e-7)):
+        try:
+            e = complete(qp.ThermalRelaxationError(pe, t1, t2, tg, wires=0))
+        except Exception as ex:
+            e = f"raised {type(ex).__name__}"
+        num.append({"channel": "ThermalRelaxationError", "params": [pe, t1, t2, tg], "err": e})
 for _ in range(6):
     pe, t1, tg = nprng.uniform(0, 1), nprng.uniform(1e-6, 1e-4), nprng.uniform(1e-8, 1e-6)
     for t2 in (t1 * nprng.uniform(0.1, 1.0), t1 * nprng.uniform(1.0, 2.0)):
@@ -131,7 +140,182 @@ def embed(K, ws, n):
     return full
 
 
+def embed_big(K, ws, n):
+    """Same as embed (kron with the identity + axis permutation); used for registers of more than 5 wires, where the entry-wise loop is slow."""
+    rest = [i for i in range(n) if i not in ws]
+    full = np.kron(K, np.eye(2 ** len(rest))).reshape([2] * (2 * n))
+    cur = list(ws) + rest
+    perm = [cur.index(i) for i in range(n)]
+    return full.transpose(perm + [n + q for q in perm]).reshape(2 ** n, 2 ** n)
+
+
+_K = np.arange(64).reshape(8, 8) * (1 + 0.5j)
+assert np.array_equal(embed(_K, [3, 0, 2], 4), embed_big(_K, [3, 0, 2], 4)) and np.array_equal(embed(_K[:2, :2], [1], 3), embed_big(_K[:2, :2], [1], 3))
+
+
+def ptrace_kron(rho, sigma, ws, n):
+    """rho -> sigma (on wire positions ws) (x) tr_ws(rho): the documented action of QubitDensityMatrix on a subset of wires."""
+    k = len(ws)
+    rest = [i for i in range(n) if i not in ws]
+    T = rho.reshape([2] * (2 * n))
+    red = np.einsum(T, list(range(n)) + [i if i in ws else n + i for i in range(n)], rest + [n + i for i in rest]).reshape(2 ** len(rest), 2 ** len(rest))
+    full = np.kron(sigma, red).reshape([2] * (2 * n))          # axes: ws + rest (rows), ws + rest (cols)
+    cur = list(ws) + rest
+    perm = [cur.index(i) for i in range(n)]
+    return full.transpose(perm + [n + q for q in perm]).reshape(2 ** n, 2 ** n)
+
+
+def reference(ops, order, n, b):
+    """Independent dense simulation rho -> sum_k K rho K^dagger (numpy); batch entry b of broadcast operators."""
+    rho = np.zeros((2 ** n, 2 ** n), dtype=complex); rho[0, 0] = 1
+    for o in ops:
+        ws = [order.index(w) for w in o.wires]
+        if isinstance(o, qp.Snapshot):
+            continue
+        if isinstance(o, qp.StatePrep):                          # only used on all wires
+            psi = embed_vec(np.asarray(o.data[0], dtype=complex), ws, n)
+            rho = np.outer(psi, psi.conj())
+            continue
+        if isinstance(o, qp.QubitDensityMatrix):
+            rho = ptrace_kron(rho, np.asarray(o.data[0], dtype=complex), ws, n)
+            continue
+        if isinstance(o, qp.operation.Channel):
+            Ks = o.kraus_matrices()
+        else:
+            M = np.asarray(qp.matrix(o))
+            Ks = [M[b] if M.ndim == 3 else M]
+        Es = [(embed if n <= 5 else embed_big)(np.asarray(K, dtype=complex), ws, n) if len(ws) else np.asarray(K).reshape(()) * np.eye(2 ** n) for K in Ks]
+        rho = sum(E @ rho @ E.conj().T for E in Es)
+    return rho
+
+
+def embed_vec(psi, ws, n):
+    """State vector given on wire positions ws (all n wires, any order) -> natural position order."""
+    return psi.reshape([2] * n).transpose([ws.index(i) for i in range(n)]).reshape(-1)
+
+
 runs = []
+
+
+def reference_pure(ops, order, n):
+    """Unitary-only circuits on large registers: |psi> -> U|psi> with dense embedded matrices, rho = |psi><psi| (avoids 2^n-dim matrix products)."""
+    psi = np.zeros(2 ** n, dtype=complex); psi[0] = 1
+    for o in ops:
+        psi = embed_big(np.asarray(qp.matrix(o), dtype=complex), [order.index(w) for w in o.wires], n) @ psi
+    return np.outer(psi, psi.conj())
+
+
+def run_case(ops, order, B, tag=None, pure=False):
+    n = len(order)
+    rec = {"ops": [repr(o) for o in ops], "order": order, "batch": B}
+    if tag:
+        rec["fixed"] = tag
+    try:
+        dev = qp.device("default.mixed", wires=order)
+        rho_all = np.asarray(qp.execute([qp.tape.QuantumScript(ops, [qp.density_matrix(wires=order)])], dev)[0])
+        rho_all = rho_all.reshape((B or 1, 2 ** n, 2 ** n))
+    except Exception as ex:                                     # a crash of the device on a documented circuit is a failure of the property
+        runs.append(dict(rec, err=1e9, herm=1e9, trace=1e9, min_eig=-1e9, raised=f"{type(ex).__name__}: {str(ex)[:200]}"))
+        return
+    worst = {"err": 0.0, "herm": 0.0, "trace": 0.0, "min_eig": 1.0}
+    for b in range(B or 1):
+        rho = reference_pure(ops, order, n) if pure else reference(ops, order, n, b)
+        rho_dev = rho_all[b]
+        # positivity by eigenvalues up to 6 wires; beyond that it follows (to 2^n * err) from the entry-wise agreement with the reference state
+        ev = np.linalg.eigvalsh((rho_dev + rho_dev.conj().T) / 2) if n <= 6 else np.zeros(1)
+        worst = {"err": max(worst["err"], float(np.abs(rho_dev - rho).max())), "herm": max(worst["herm"], float(np.abs(rho_dev - rho_dev.conj().T).max())),
+                 "trace": max(worst["trace"], float(abs(np.trace(rho_dev) - 1))), "min_eig": min(worst["min_eig"], float(ev.min()))}
+    runs.append(dict(rec, **worst))
+
+
+# ---- fixed corpus (runs first, independent of the seed): every operator with a dedicated kernel in
+# devices/qubit_mixed/apply_operation.py (Identity, GlobalPhase, PauliX, PauliZ, T, S, PhaseShift, the real symmetric
+# controlled gates incl. the >= 9-wire matrix-free branch, the diagonal-in-Z family, QubitDensityMatrix, Snapshot) plus the
+# generic einsum / tensordot paths, applied to entangled coherent superpositions with complex amplitudes (pure and mixed,
+# unbatched and broadcast, natural and permuted device wire order); oracle rho -> U rho U^dagger / Kraus sum in numpy.
+def prep(n, B=None, mixed=False):
+    ops = []
+    if B:
+        ops.append(qp.RX(np.array([0.7, -1.9, 2.3][:B]), wires=n - 1))
+    for w in range(n):
+        ops.append(qp.Rot(0.4 + 0.5 * w, 1.1 + 0.3 * w, -0.8 + 0.45 * w, wires=w))
+    for w in range(n - 1):
+        ops.append(qp.CRY(0.9 + 0.2 * w, wires=[w, w + 1]))
+    if mixed:
+        ops += [qp.AmplitudeDamping(0.3, wires=0), qp.DepolarizingChannel(0.15, wires=n - 1)]
+    return ops
+
+
+def fixed_gates():
+    d2 = np.exp(1j * np.array([0.3, -1.1, 2.0, 0.9]))
+    d3 = np.exp(1j * np.array([0.3, -1.1, 2.0, 0.9, -2.4, 1.7, 0.2, -0.6]))
+    one = [("Identity", lambda w: qp.Identity(w)), ("GlobalPhase", lambda w: qp.GlobalPhase(0.7, wires=w)), ("PauliX", lambda w: qp.PauliX(w)),
+           ("PauliY", lambda w: qp.PauliY(w)), ("PauliZ", lambda w: qp.PauliZ(w)), ("Hadamard", lambda w: qp.Hadamard(w)), ("S", lambda w: qp.S(w)),
+           ("T", lambda w: qp.T(w)), ("SX", lambda w: qp.SX(w)), ("Adjoint(S)", lambda w: qp.adjoint(qp.S(w))), ("Adjoint(T)", lambda w: qp.adjoint(qp.T(w))),
+           ("PhaseShift", lambda w: qp.PhaseShift(0.83, wires=w)), ("RZ", lambda w: qp.RZ(-1.27, wires=w)), ("RX", lambda w: qp.RX(0.61, wires=w)),
+           ("U-generic", lambda w: qp.QubitUnitary(np.asarray(qp.matrix(qp.Rot(0.3, 1.2, -0.7, wires=0))), wires=w)),
+           ("Snapshot", lambda w: qp.Snapshot()),
+           ("ThermalRelaxationError<", lambda w: qp.ThermalRelaxationError(0.2, 2.0, 1.0, 0.5, wires=w)), ("ThermalRelaxationError>", lambda w: qp.ThermalRelaxationError(0.3, 1.2, 1.9, 0.4, wires=w)),
+           ("QubitDensityMatrix-1", lambda w: qp.QubitDensityMatrix(np.array([[0.7, 0.2 - 0.1j], [0.2 + 0.1j, 0.3]]), wires=w))]
+    two = [("CNOT", lambda a, b: qp.CNOT([a, b])), ("CZ", lambda a, b: qp.CZ([a, b])), ("CY", lambda a, b: qp.CY([a, b])), ("CH", lambda a, b: qp.CH([a, b])),
+           ("SWAP", lambda a, b: qp.SWAP([a, b])), ("ISWAP", lambda a, b: qp.ISWAP([a, b])), ("CRZ", lambda a, b: qp.CRZ(1.3, wires=[a, b])),
+           ("ControlledPhaseShift", lambda a, b: qp.ControlledPhaseShift(-0.9, wires=[a, b])), ("CPhaseShift10", lambda a, b: qp.CPhaseShift10(0.77, wires=[a, b])),
+           ("MultiRZ-2", lambda a, b: qp.MultiRZ(0.57, wires=[a, b])), ("IsingZZ", lambda a, b: qp.IsingZZ(-0.66, wires=[a, b])),
+           ("DiagonalQubitUnitary-2", lambda a, b: qp.DiagonalQubitUnitary(d2, wires=[a, b])),
+           ("PauliError-XY", lambda a, b: qp.PauliError("XY", 0.3, wires=[a, b]))]
+    three = [("Toffoli", lambda a, b, c: qp.Toffoli([a, b, c])), ("CSWAP", lambda a, b, c: qp.CSWAP([a, b, c])), ("CCZ", lambda a, b, c: qp.CCZ([a, b, c])),
+             ("MultiControlledX-3", lambda a, b, c: qp.MultiControlledX(wires=[a, b, c], control_values=[1, 0])),
+             ("MultiRZ-3", lambda a, b, c: qp.MultiRZ(-0.41, wires=[a, b, c])), ("DiagonalQubitUnitary-3", lambda a, b, c: qp.DiagonalQubitUnitary(d3, wires=[a, b, c])),
+             ("PCPhase", lambda a, b, c: qp.PCPhase(0.93, dim=3, wires=[a, b, c])),
+             ("PauliError-XYZ", lambda a, b, c: qp.PauliError("XYZ", 0.3, wires=[a, b, c]))]
+    return one, two, three
+
+
+def fixed_corpus():
+    one, two, three = fixed_gates()
+    tail = lambda n: [qp.PhaseDamping(0.2, wires=0), qp.BitFlip(0.1, wires=n - 1)]
+    for nm, mk in one:
+        run_case(prep(3) + [mk(1)], [0, 1, 2], None, tag=nm)
+        run_case(prep(3, B=2, mixed=True) + [mk(2), mk(0)] + tail(3), [2, 0, 1], 2, tag=nm + "/batched")
+    for nm, mk in two:
+        run_case(prep(3) + [mk(2, 0)], [0, 1, 2], None, tag=nm)
+        run_case(prep(3, B=2, mixed=True) + [mk(0, 1), mk(1, 2)] + tail(3), [1, 2, 0], 2, tag=nm + "/batched")
+    for nm, mk in three:
+        run_case(prep(4) + [mk(3, 0, 2)], [0, 1, 2, 3], None, tag=nm)
+        run_case(prep(4, B=3, mixed=True) + [mk(1, 2, 3), mk(2, 0, 1)] + tail(4), [3, 1, 0, 2], 3, tag=nm + "/batched")
+    # broadcast operators acting on an unbatched / already batched state (PhaseShift kernel, diagonal kernel, einsum)
+    ang = np.array([0.35, -1.4, 2.2])
+    for nm, mk in (("PhaseShift[b]", lambda: qp.PhaseShift(ang, wires=1)), ("RZ[b]", lambda: qp.RZ(ang, wires=1)), ("CRZ[b]", lambda: qp.CRZ(ang, wires=[2, 0])),
+                   ("ControlledPhaseShift[b]", lambda: qp.ControlledPhaseShift(ang, wires=[0, 1])), ("MultiRZ[b]", lambda: qp.MultiRZ(ang, wires=[2, 1, 0])),
+                   ("RY[b]", lambda: qp.RY(ang, wires=2))):
+        run_case(prep(3) + [mk(), qp.T(1), qp.AmplitudeDamping(0.25, wires=1)], [0, 1, 2], 3, tag=nm + "/op-batched")
+        run_case(prep(3, B=3, mixed=True) + [mk(), qp.S(0)], [1, 0, 2], 3, tag=nm + "/both-batched")
+    # state preparation operators (complex amplitudes), then dedicated kernels
+    psi = np.array([0.5, 0.5j, -0.5, 0.1 + 0.2j, 0.3 - 0.1j, 0.2j, 0.4, -0.1 - 0.3j]); psi = psi / np.linalg.norm(psi)
+    run_case([qp.StatePrep(psi, wires=[0, 1, 2]), qp.T(0), qp.S(1), qp.PauliZ(2), qp.PauliX(1), qp.Toffoli([2, 0, 1])], [0, 1, 2], None, tag="StatePrep")
+    run_case([qp.StatePrep(psi, wires=[2, 0, 1]), qp.T(2), qp.adjoint(qp.T(1)), qp.SWAP([0, 2]), qp.AmplitudeDamping(0.2, wires=2)], [1, 2, 0], None, tag="StatePrep/permuted")
+    v = np.array([0.6, 0.8j, -0.3 + 0.1j, 0.2]); v = v / np.linalg.norm(v)
+    sig = 0.7 * np.outer(v, v.conj()) + 0.3 * np.diag([0.1, 0.2, 0.3, 0.4])
+    run_case(prep(3) + [qp.QubitDensityMatrix(sig, wires=[2, 0]), qp.T(2), qp.CNOT([0, 1])], [0, 1, 2], None, tag="QubitDensityMatrix-2")
+    run_case(prep(3, B=2, mixed=True) + [qp.QubitDensityMatrix(sig, wires=[1, 2]), qp.T(1), qp.CZ([2, 0])], [2, 0, 1], 2, tag="QubitDensityMatrix-2/batched")
+    rho3 = np.outer(psi, psi.conj()) * 0.8 + 0.2 * np.eye(8) / 8
+    run_case([qp.QubitDensityMatrix(rho3, wires=[0, 1, 2]), qp.T(1), qp.S(0), qp.Hadamard(2)], [0, 1, 2], None, tag="QubitDensityMatrix-all")
+    # all device wires in a non-device (cyclic) order: the matrix is given in the order of op.wires (repaired in /repo)
+    run_case([qp.QubitDensityMatrix(rho3, wires=[2, 0, 1]), qp.T(1), qp.S(0), qp.Hadamard(2)], [0, 1, 2], None, tag="QubitDensityMatrix-all/permuted")
+    run_case(prep(3) + [qp.QubitDensityMatrix(rho3, wires=[1, 2, 0]), qp.T(2), qp.CNOT([0, 1])], [2, 0, 1], None, tag="QubitDensityMatrix-all/permuted-order")
+    # the >= 9-operator-wire matrix-free branch of the real symmetric kernel
+    run_case(prep(9) + [qp.T(4), qp.MultiControlledX(wires=[8, 1, 2, 3, 4, 5, 6, 7, 0], control_values=[1, 0, 1, 1, 0, 1, 1, 1]), qp.S(0), qp.PauliZ(8)],
+             list(range(9)), None, tag="MultiControlledX-9", pure=True)
+    # the published circuit shapes: noise after an entangler followed by a phase gate
+    for g in (qp.T, qp.S, qp.PauliZ, qp.PauliX, qp.Hadamard):
+        run_case([qp.RY(0.9, wires=1), qp.CNOT([1, 0]), g(1), qp.AmplitudeDamping(0.2, wires=1), qp.DepolarizingChannel(0.1, wires=0)], [0, 1], None, tag="noisy/" + g.__name__)
+
+
+fixed_corpus()
+n_fixed = len(runs)
+
+FIXED1 = [qp.Hadamard, qp.T, qp.S, qp.PauliX, qp.PauliY, qp.PauliZ, qp.SX, lambda w: qp.adjoint(qp.T(w)), lambda w: qp.adjoint(qp.S(w)),
+          lambda w: qp.PhaseShift(rng.uniform(-3, 3), wires=w)]
 for ci in range(30 if tier == "quick" else 300):
     n = rng.choice([1, 2, 2, 3, 4])
     order = list(range(n)); rng.shuffle(order)
@@ -142,12 +326,17 @@ for ci in range(30 if tier == "quick" else 300):
     for _ in range(rng.randint(2, 8)):
         r = rng.random()
         w = rng.randrange(n)
-        if r < 0.35:
+        if r < 0.30:
             ops.append(rng.choice([qp.RX, qp.RY, qp.RZ])(rng.uniform(-3, 3), wires=w))
-        elif r < 0.5 and n > 1:
-            ops.append(rng.choice([qp.CNOT, qp.CZ])(wires=rng.sample(range(n), 2)))
-        elif r < 0.6:
-            ops.append(qp.Hadamard(w))
+        elif r < 0.45 and n > 1:
+            if n > 2 and rng.random() < 0.3:
+                ops.append(rng.choice([qp.Toffoli, qp.CSWAP, qp.CCZ])(wires=rng.sample(range(n), 3)))
+            else:
+                g = rng.choice([qp.CNOT, qp.CZ, qp.SWAP, qp.CY, qp.CH, "CRZ", "CPS"])
+                ws2 = rng.sample(range(n), 2)
+                ops.append(qp.CRZ(rng.uniform(-3, 3), wires=ws2) if g == "CRZ" else qp.ControlledPhaseShift(rng.uniform(-3, 3), wires=ws2) if g == "CPS" else g(wires=ws2))
+        elif r < 0.62:
+            ops.append(rng.choice(FIXED1)(w))     # gates with dedicated density-matrix kernels
         elif r < 0.72:
             k = rng.randint(1, min(3, n))        # multi-wire Pauli error (3-wire operators take the tensordot kernel)
             ops.append(qp.PauliError("".join(rng.choice("XYZ") for _ in range(k)), rng.choice([0.0, 1.0, rng.uniform(0, 1)]), wires=rng.sample(range(n), k)))
@@ -157,26 +346,6 @@ for ci in range(30 if tier == "quick" else 300):
             ops.append({"AD": lambda: qp.AmplitudeDamping(p, wires=w), "PD": lambda: qp.PhaseDamping(p, wires=w), "BF": lambda: qp.BitFlip(p, wires=w),
                         "PF": lambda: qp.PhaseFlip(p, wires=w), "DP": lambda: qp.DepolarizingChannel(p, wires=w),
                         "GAD": lambda: qp.GeneralizedAmplitudeDamping(p, rng.uniform(0, 1), wires=w), "RE": lambda: qp.ResetError(p * 0.5, rng.uniform(0, 0.5), wires=w)}[ch]())
-    dev = qp.device("default.mixed", wires=order)
-    rho_all = np.asarray(qp.execute([qp.tape.QuantumScript(ops, [qp.density_matrix(wires=order)])], dev)[0])
-    rho_all = rho_all.reshape((B or 1, 2 ** n, 2 ** n))
-    worst = {"err": 0.0, "herm": 0.0, "trace": 0.0, "min_eig": 1.0}
-    for b in range(B or 1):
-        rho = np.zeros((2 ** n, 2 ** n), dtype=complex); rho[0, 0] = 1
-        for o in ops:
-            ws = [order.index(w) for w in o.wires]
-            if isinstance(o, qp.operation.Channel):
-                Ks = o.kraus_matrices()
-            else:
-                ob = o
-                if getattr(o, "batch_size", None):
-                    ob = type(o)(float(np.asarray(o.data[0])[b]), wires=o.wires)
-                Ks = [np.asarray(qp.matrix(ob))]
-            rho = sum(embed(np.asarray(K), ws, n) @ rho @ embed(np.asarray(K), ws, n).conj().T for K in Ks)
-        rho_dev = rho_all[b]
-        ev = np.linalg.eigvalsh((rho_dev + rho_dev.conj().T) / 2)
-        worst = {"err": max(worst["err"], float(np.abs(rho_dev - rho).max())), "herm": max(worst["herm"], float(np.abs(rho_dev - rho_dev.conj().T).max())),
-                 "trace": max(worst["trace"], float(abs(np.trace(rho_dev) - 1))), "min_eig": min(worst["min_eig"], float(ev.min()))}
-    runs.append(dict({"ops": [repr(o) for o in ops], "order": order, "batch": B}, **worst))
+    run_case(ops, order, B)
 json.dump(oblig, open(req["outdir"] + "/obligations.json", "w"))
 print(json.dumps({"items": items, "numeric": num, "runs": runs}))
